@@ -5,7 +5,7 @@ from .. import cv, gen, lib, ref
 from ..lib import call
 
 PROP = "C09"
-PLAN = {"quick": (1400, 400), "thorough": (100000, 3600)}
+PLAN = {"quick": (1400, 400), "thorough": (50000, 3600)}
 LARGE = (0.04, 24)  # (share, largest size) of the large class of gen.kv: 17+ control points, degree up to 8
 STEP_BUDGET = 20_000_000  # loop line events per outermost call: ten times the default, for the large class
 RULE = ("case = curve of degree 0..4 (Bezier, multi-span, C0 knots of multiplicity p, discontinuities of multiplicity p+1, "
